@@ -113,6 +113,23 @@ func checkC10(c *mc.Ctx) {
 		}
 	}
 	c.Ev.AddScenario(mc.Scenario{Name: "all messages of length 0..2", SpaceSize: 65793, Executed: n2, Exhaustive: n2 == 65793, States: n2, Trans: n2})
+	// the same messages again, but written into ONE reused buffer (the checksum is a function of the
+	// bytes, not of the slice identity or of earlier calls)
+	var n3 int64
+	buf := make([]byte, 2)
+	for a := 0; a < 256; a++ {
+		for b := 0; b < 256; b++ {
+			buf[0], buf[1] = byte(a), byte(b)
+			n3++
+			if got, want := astits.VerifComputeCRC32(buf), ref.CRC(buf); got != want {
+				c.Rep.Report("reused-buffer", map[string]any{"kind": "crc", "message_hex": mc.Hex(buf), "got": got, "want": want, "message": "checksum of a rewritten buffer differs from CRC-32/MPEG-2 (depends on an earlier call)"})
+			}
+			if got, want := astits.VerifUpdateCRC32(0xffffffff, buf), ref.CRC(buf); got != want {
+				c.Rep.Report("reused-buffer", map[string]any{"kind": "crc", "message_hex": mc.Hex(buf), "got": got, "want": want, "message": "update over a rewritten buffer differs from CRC-32/MPEG-2"})
+			}
+		}
+	}
+	c.Ev.AddScenario(mc.Scenario{Name: "all 2-byte messages through one reused buffer", SpaceSize: 65536, Executed: n3, Exhaustive: true, States: n3, Trans: n3})
 	// chunking and residue over a message family
 	var nsplit int64
 	lens := []int{1, 2, 3, 4, 7, 8, 9, 15, 16, 17, 183, 184, 185, 187, 188, 1021, 1024, 4093, 4096}
